@@ -58,7 +58,7 @@ func short(b []byte) string {
 
 // runOriginators: every direct originator (chain x requester x memo) and every tunnel originator
 // (chain x tunnel id x destination chain x destination contract) over the alphabets.
-func runOriginators(t *engine.Tally) {
+func runOriginators(t tally) {
 	cfg := map[string]any{"section": "originator"}
 	set := newCollisionSet()
 	check := func(kind, input string, enc []byte, err error, want []byte, wantLen int) {
@@ -106,7 +106,7 @@ func runOriginators(t *engine.Tally) {
 }
 
 // runEncodeSigning: the real EncodeSigning over originator bytes x block time x signing id x content.
-func runEncodeSigning(t *engine.Tally) {
+func runEncodeSigning(t tally) {
 	cfg := map[string]any{"section": "encode-signing"}
 	origs := [][]byte{
 		nil, {0x00}, {0x01}, []byte("a"), []byte("ab"),
@@ -158,7 +158,7 @@ func runEncodeSigning(t *engine.Tally) {
 
 // runTags: the tag constants the repository exports equal keccak256(name)[:4] and are pairwise distinct
 // within the namespace where they are used.
-func runTags(t *engine.Tally) {
+func runTags(t tally) {
 	cfg := map[string]any{"section": "tags"}
 	tags := []struct{ ns, name, got string }{
 		{"originator", "DirectOriginator", tsstypes.DirectOriginatorPrefix},
